@@ -251,6 +251,14 @@ Definition run_layout (c : cfg) (bs : N) (layout : list (N * bool)) (lag : N) : 
   let ms := layout_msgs bs layout in
   run c (init ms) (sched_lag lag (length ms)).
 
+(* ---- year-less timestamp notations (finding F9c): stage 2 (process_missing_year) walks the
+   whole file backwards and stores every message before anything is printed, and for streamed
+   containers blockzero_analysis calls disable_drop_data(), so nothing is ever released.  The
+   stores then hold what a run of finds without any drop holds (the order of the finds does not
+   matter for the counts). *)
+Definition find_all (c : cfg) (ms : list msg) : st :=
+  fold_left (fun s m => do_find c s false m) ms (init ms).
+
 (* ---- well-formed message sequences (what Proofs/RetainProofs.v assumes of the input; proved
    there for every layout) *)
 Definition line_ok (bs : N) (l : lspan) : Prop :=
